@@ -9,7 +9,7 @@ use crate::core::net::{hex, unhex, ScriptServer};
 use crate::core::proc;
 use crate::core::real::serve;
 use crate::core::rng::{hash64, Rng};
-use crate::models::misc::{http_stall, json_depth_at_end, http_once, EcoState};
+use crate::models::misc::{http_redirect_then_silent, http_stall, json_depth_at_end, http_once, EcoState};
 use crate::props::hostile::{call, ep_name, seed_server, Ep, Settings};
 use gamedig::verif_hook::{SocketTrait, TcpSocketImpl, UdpSocketImpl};
 use gamedig::{GDErrorKind, TimeoutSettings};
@@ -485,17 +485,61 @@ impl C12 {
         cx.count(&format!("behaviour-ok|{class}"));
     }
 
+    /// an HTTP server that answers with a redirect and then falls silent (on the same or on a new connection): the
+    /// follow-up request is bounded by the read timeout like the first one
+    fn eco_redirect_case(&self, cx: &mut Cx) {
+        let timeout = *cx.rng.pick(&[150u64, 400]);
+        let d = Duration::from_millis(timeout);
+        let ts = TimeoutSettings::new(Some(d), Some(d), Some(d), 0).ok();
+        let Ok((port, stop, h)) = http_redirect_then_silent(Duration::from_secs(40)) else { return cx.inconclusive("cannot bind loopback listener") };
+        let ip = lo(false);
+        let (tx, rx) = std::sync::mpsc::channel();
+        let t0 = Instant::now();
+        let q = std::thread::spawn(move || {
+            let r = guarded(|| gamedig::games::eco::query_with_timeout(&ip, Some(port), &ts).map(|_| ()).map_err(|e| e.kind)).0;
+            let _ = tx.send(r);
+        });
+        let bound = Duration::from_millis(timeout * 2 * 8) + Duration::from_secs(3);
+        let r = rx.recv_timeout(bound + Duration::from_secs(6));
+        let el = t0.elapsed();
+        stop.store(true, std::sync::atomic::Ordering::SeqCst);
+        let requests = h.join().unwrap_or(0);
+        let _ = q.join();
+        cx.eval();
+        let detail = |what: &str| json!({"what": what, "case": "eco|redirect-then-silent", "timeout_ms": timeout, "elapsed_ms": el.as_millis() as u64, "bound_ms": bound.as_millis() as u64, "requests_seen_by_the_server": requests});
+        match r {
+            Err(_) => cx.violation("C12 timeout-not-bounding eco after-a-redirect", || detail("the follow-up request of a redirect was still waiting after the deadline; it ended only when the server side was torn down")),
+            Ok(Outcome::Panicked(p)) => cx.violation(format!("C12 panic at {} msg=\"{}\"", p.loc, norm_msg(&p.msg)), || detail(&p.msg)),
+            Ok(Outcome::Returned(Ok(()))) => cx.violation("C12 eco ok-without-server", || detail("no status was ever sent")),
+            Ok(Outcome::Returned(Err(k))) => {
+                if el > bound {
+                    cx.inconclusive("eco redirect: elapsed above the bound once (not re-run)");
+                } else {
+                    cx.shape("eco|redirect-then-silent");
+                    cx.nontrivial(hash64(b"eco-redirect") ^ timeout ^ ((requests as u64) << 20));
+                    cx.count(&format!("eco-redirect-ok|{}", kind_name(&k)));
+                }
+            }
+            _ => {}
+        }
+    }
+
     fn eco_behaviour(&self, cx: &mut Cx) {
+        if cx.rng.chance(1, 4) {
+            return self.eco_redirect_case(cx);
+        }
         let v6 = cx.rng.bool();
         let timeout = *cx.rng.pick(&[50u64, 150, 400]);
         let d = Duration::from_millis(timeout);
         let mode = cx.rng.below(3);
         // the read timeout must bound the wait whether or not the write / connect timeouts are set
-        let none_variant = if mode == 0 { cx.rng.below(5) } else { 0 };
+        let none_variant = if mode == 0 { cx.rng.below(6) } else { 0 };
         // variant 4: no settings at all = the documented defaults (4 s each) must be in force
         let timeout = if none_variant == 4 { 4000 } else { timeout };
         let ts = match none_variant {
             4 => None,
+            // variant 5: a connect timeout far above the read timeout must not stretch the wait for a reply
+            5 => TimeoutSettings::new(Some(d), Some(d), Some(Duration::from_secs(25)), 0).ok(),
             1 => TimeoutSettings::new(Some(d), None, Some(d), 0).ok(),
             2 => TimeoutSettings::new(Some(d), Some(d), None, 0).ok(),
             3 => TimeoutSettings::new(Some(d), None, None, 0).ok(),
@@ -507,7 +551,7 @@ impl C12 {
             Err(_) => return cx.inconclusive("cannot bind loopback listener"),
         };
         let port = listener.local_addr().unwrap().port();
-        let label = format!("eco|{}|{}{}", if v6 { "v6" } else { "v4" }, ["accept-never-write", "refused", "valid"][mode as usize], ["", "|write=None", "|connect=None", "|write=None,connect=None", "|no-settings(defaults)"][none_variant as usize]);
+        let label = format!("eco|{}|{}{}", if v6 { "v6" } else { "v4" }, ["accept-never-write", "refused", "valid"][mode as usize], ["", "|write=None", "|connect=None", "|write=None,connect=None", "|no-settings(defaults)", "|connect=25s"][none_variant as usize]);
         let t0;
         let o;
         match mode {
@@ -532,7 +576,7 @@ impl C12 {
                         drop(listener);
                         let _ = rx.recv_timeout(Duration::from_secs(5));
                         cx.eval();
-                        cx.violation(format!("C12 timeout-not-bounding eco {}{}", if v6 { "v6" } else { "v4" }, if none_variant == 4 { " with-default-settings" } else if none_variant > 0 { " with-a-None-timeout" } else { "" }), || json!({"case": label, "what": "the query was still blocked after the deadline; it only returned (if at all) once the server side was torn down", "deadline_ms": deadline.as_millis() as u64, "timeout_ms": timeout}));
+                        cx.violation(format!("C12 timeout-not-bounding eco {}{}", if v6 { "v6" } else { "v4" }, if none_variant == 5 { " with-a-long-connect-timeout" } else if none_variant == 4 { " with-default-settings" } else if none_variant > 0 { " with-a-None-timeout" } else { "" }), || json!({"case": label, "what": "the query was still blocked after the deadline; it only returned (if at all) once the server side was torn down", "deadline_ms": deadline.as_millis() as u64, "timeout_ms": timeout}));
                         return;
                     }
                 }
@@ -551,7 +595,18 @@ impl C12 {
                 let ip4 = lo(false);
                 let ts5 = TimeoutSettings::new(Some(Duration::from_secs(5)), Some(Duration::from_secs(5)), Some(Duration::from_secs(5)), 0).ok();
                 t0 = Instant::now();
-                o = guarded(|| gamedig::games::eco::query_with_timeout(&ip4, Some(p), &ts5).map(|_| ()).map_err(|e| e.kind)).0;
+                // with a host name among the settings (any spelling) the request still goes to the caller's address
+                let host = cx.rng.pick(&["", "Eco.GameDig.Example", "eco.example.org", "LocalHost", "xn--mnchen-3ya.example", "münchen.example", "127.1", "UPPER.CASE.EXAMPLE."]).to_string();
+                o = if host.is_empty() {
+                    guarded(|| gamedig::games::eco::query_with_timeout(&ip4, Some(p), &ts5).map(|_| ()).map_err(|e| e.kind)).0
+                } else {
+                    cx.count("eco-valid-with-a-host-name-setting");
+                    let g = gamedig::GAMES.get("eco").unwrap();
+                    let x = gamedig::ExtraRequestSettings::default().set_hostname(host.clone());
+                    guarded(|| gamedig::query_with_timeout_and_extra_settings(g, &ip4, Some(p), ts5, Some(x)).map(|_| ()).map_err(|e| e.kind)).0
+                };
+                // unblock the one-shot server if the request went somewhere else
+                let _ = std::net::TcpStream::connect_timeout(&SocketAddr::new(ip4, p), Duration::from_millis(200));
                 let _ = h.join();
             }
         }
@@ -911,7 +966,7 @@ impl Check for C12 {
     }
     fn level(&self) -> &'static str { "fault_enumeration" }
     fn rule(&self) -> String {
-        "real loopback sockets. (1) syscall log: a child running UdpSocketImpl/TcpSocketImpl new+send+receive under strace -f for UDP/TCP x IPv4/IPv6 x timeout triples (each member Some or None) x payloads; an offline checker asserts SO_RCVTIMEO/SO_SNDTIMEO equal to the configured values on every socket before its first I/O, a non-blocking connect polled with the configured connect timeout, wire bytes equal to the payload and the destination equal to the caller's address; an Eco query against an HTTP server that stalls in the middle of the body (any JSON nesting depth, Content-Length or chunked) performs exactly one read that runs into the timeout and fails with PacketReceive. (2) behaviour: 13 protocol entry points + Eco against loopback servers that fall silent after 0-3 replies, keep a TCP connection open without writing, or refuse (Eco also with the write and/or connect timeout None, and with no settings at all = the 4 s defaults), for timeouts {50,150,400} ms x retries 0-2 x IPv4/IPv6: error class and elapsed <= (retries+1) x 8 x timeout + 3 s (a breach is re-run twice; only a 3-fold breach counts). a TCP server that sends part or all of a reply and then holds the connection open must give PacketReceive in time; a silent UDP server while a third party sends stray datagrams to the client's port every timeout/4 must still end within the bound. (3) integrity: direct send/receive against an echo peer for payload sizes {0,1,2,1023,1024,1025,6144,65507} and random, reply truncated to the requested size. (4) fidelity: the same reactive model server scripted and over loopback gives identical results. non-trivial = a case whose oracle ran to a verdict; distinct by (kind, parameters, payload)".into()
+        "real loopback sockets. (1) syscall log: a child running UdpSocketImpl/TcpSocketImpl new+send+receive under strace -f for UDP/TCP x IPv4/IPv6 x timeout triples (each member Some or None) x payloads; an offline checker asserts SO_RCVTIMEO/SO_SNDTIMEO equal to the configured values on every socket before its first I/O, a non-blocking connect polled with the configured connect timeout, wire bytes equal to the payload and the destination equal to the caller's address; an Eco query against an HTTP server that stalls in the middle of the body (any JSON nesting depth, Content-Length or chunked) performs exactly one read that runs into the timeout and fails with PacketReceive. (2) behaviour: 13 protocol entry points + Eco against loopback servers that fall silent after 0-3 replies, keep a TCP connection open without writing, or refuse (Eco also with the write and/or connect timeout None, with no settings at all = the 4 s defaults, with a connect timeout far above the read timeout, and against a server that redirects and then falls silent), for timeouts {50,150,400} ms x retries 0-2 x IPv4/IPv6: error class and elapsed <= (retries+1) x 8 x timeout + 3 s (a breach is re-run twice; only a 3-fold breach counts). a TCP server that sends part or all of a reply and then holds the connection open must give PacketReceive in time; a silent UDP server while a third party sends stray datagrams to the client's port every timeout/4 must still end within the bound. (3) integrity: direct send/receive against an echo peer for payload sizes {0,1,2,1023,1024,1025,6144,65507} and random, reply truncated to the requested size. (4) fidelity: the same reactive model server scripted and over loopback gives identical results. non-trivial = a case whose oracle ran to a verdict; distinct by (kind, parameters, payload)".into()
     }
     fn assumptions(&self) -> Vec<String> {
         vec![
